@@ -13,7 +13,7 @@ import scratch
 from scratch import Undecided, VERIF
 
 KANI_PROPS = ["C01", "C02", "C03", "C04", "C05", "C06", "C07", "C09", "C19"]
-VERUS_PROPS = ["C03", "C05", "C07", "C08", "C09", "C12", "C14", "C16", "C17", "C18"]
+VERUS_PROPS = ["C04", "C08", "C09", "C12", "C14", "C16", "C17", "C18"]
 CLAIMED = ["C01", "C02", "C03", "C04", "C05", "C06", "C07", "C08", "C09", "C12", "C14", "C16", "C17", "C18", "C19"]
 
 TRUSTED_BASE = [
@@ -297,4 +297,5 @@ def main(argv):
     if a.pid not in CLAIMED:
         print(f"{a.pid} is not claimed (see MANIFEST.json not_applicable)")
         return 2
-    return run_property(a.pid, a.tier if a.tier in ("quick", "thorough") else "quick", seed)
+    rc = run_property(a.pid, a.tier if a.tier in ("quick", "thorough") else "quick", seed)
+    return rc
